@@ -47,6 +47,10 @@ def run(ctx):
         step_bind(ctx, 'Ramalhete', 'queue_ram', ['ram10/%s/P;;push1,push2,pop;pop,push3' % rc], rq, pb=2, max_exec=150 if q else 5000, keep=keepr)
     if not q:
         step_bind(ctx, 'Ramalhete', 'queue_ram', ['ram21/nebr0/P;;push1,push2,pop;pop,push3'], dict(rq, EPN=2, PopRetries=1), pb=2, max_exec=5000, keep=keepr)
+    # ... and MSQueue (pointer-valued words: kind of access, CAS outcome, null / non-null)
+    keepm = lambda r: r.get('fn', '').startswith('michael_scott_queue::') and 'node::' not in r.get('fn', '')
+    for rc in (['nebr0'] if q else ['nebr0', 'hp3', 'stamp']):
+        step_bind(ctx, 'MSQueue', 'queue_ms', ['ms/%s/I;;push1,push2,pop;pop,push3' % rc], queue_models.ms_consts(NNodes=7, MaxPush=2, MaxPop=2), pb=2, max_exec=40 if q else 1500, keep=keepm)
     for r in ctx.tv[:3]:
         ctx.samples.append({'driver': r['driver'], 'history': canonical_sample(execution_lines(r['trace'], 2), 60)})
     return finish(ctx,
